@@ -50,3 +50,64 @@ func verifH_C11_loader_reuse() {
 	verifAssert(err != nil, "C11 loader reuse: a reference into another file is reported as an error when external references are disallowed, also when that file was loaded before")
 	verifReach("end")
 }
+
+//verif:harness id=C11 tier=quick,thorough witness=end bounds="documents in different directories that refer to each other: root (/a/root.json) -> sub/b.json -> ../root.json#/... whose target in the partially loaded root is itself a not yet resolved relative reference (other/d.json), for schemas / parameters / responses / headers, with the component order in the root chosen so that the target is met resolved or unresolved; external references allowed: every location read is one that a reference resolves to against its own document's location, the load succeeds and the reference chain ends at d.json's object"
+func verifH_C11_cross_directory_cycle() {
+	kind := verifChoose("kind", 4)
+	kinds := []string{"schemas", "parameters", "responses", "headers"}[kind]
+	leaf := []string{`{"type":"string","description":"leaf"}`, `{"name":"p","in":"query","description":"leaf","schema":{"type":"string"}}`, `{"description":"leaf"}`, `{"description":"leaf","schema":{"type":"string"}}`}[kind]
+	// the component through which b.json comes back into the root sorts before or after the entry that leads out
+	back := []string{"R", "0R"}[verifChoose("order", 2)]
+	head := func(t string) string { return `{"openapi":"3.0.0","info":{"title":"` + t + `","version":"1"},"paths":{},` }
+	var inB string
+	if kind == 0 {
+		inB = `{"type":"object","properties":{"back":{"$ref":"../root.json#/components/schemas/` + back + `"}}}`
+	} else {
+		inB = `{"$ref":"../root.json#/components/` + kinds + `/` + back + `"}`
+	}
+	files := map[string]string{
+		"/a/root.json":    head("t") + `"components":{"` + kinds + `":{"A":{"$ref":"sub/b.json#/components/` + kinds + `/B"},"` + back + `":{"$ref":"other/d.json#/components/` + kinds + `/D"}}}}`,
+		"/a/sub/b.json":   head("b") + `"components":{"` + kinds + `":{"B":` + inB + `}}}`,
+		"/a/other/d.json": head("d") + `"components":{"` + kinds + `":{"D":` + leaf + `}}}`,
+	}
+	var reads []string
+	loader := NewLoader()
+	loader.IsExternalRefsAllowed = true
+	loader.ReadFromURIFunc = func(_ *Loader, u *url.URL) ([]byte, error) {
+		reads = append(reads, u.String())
+		if t, ok := files[u.Path]; ok && u.Host == "" && u.Scheme == "" {
+			return []byte(t), nil
+		}
+		return nil, errors.New("no such file")
+	}
+	doc, err := loader.LoadFromURI(&url.URL{Path: "/a/root.json"})
+	for _, r := range reads {
+		_, ok := files[r]
+		verifAssert(ok, "C11 cross-directory cycle: only locations that a reference resolves to against its own document's location are read")
+	}
+	verifAssert(err == nil && doc != nil, "C11 cross-directory cycle: the documents load")
+	if err != nil || doc == nil {
+		return
+	}
+	desc := ""
+	switch kind {
+	case 0:
+		if a := doc.Components.Schemas["A"]; a != nil && a.Value != nil && a.Value.Properties["back"] != nil && a.Value.Properties["back"].Value != nil {
+			desc = a.Value.Properties["back"].Value.Description
+		}
+	case 1:
+		if a := doc.Components.Parameters["A"]; a != nil && a.Value != nil {
+			desc = a.Value.Description
+		}
+	case 2:
+		if a := doc.Components.Responses["A"]; a != nil && a.Value != nil && a.Value.Description != nil {
+			desc = *a.Value.Description
+		}
+	case 3:
+		if a := doc.Components.Headers["A"]; a != nil && a.Value != nil {
+			desc = a.Value.Description
+		}
+	}
+	verifAssert(desc == "leaf", "C11 cross-directory cycle: the chain of references ends at the object of d.json")
+	verifReach("end")
+}
